@@ -1,1 +1,4 @@
 import PysparklingVerif.Model.Val
+import PysparklingVerif.Properties.C01
+import PysparklingVerif.Properties.C07
+import PysparklingVerif.Properties.C18
